@@ -24,7 +24,9 @@ HERE = os.path.dirname(os.path.dirname(os.path.abspath(__file__)))
 sys.path.insert(0, HERE)
 from refagent import ber, agent  # noqa: E402
 
+import logging  # noqa: E402
 import warnings  # noqa: E402
+logging.disable(logging.CRITICAL)
 warnings.simplefilter("ignore")
 from puresnmp import Client, V1, V2C, V3, Auth, Priv, PyWrapper  # noqa: E402
 from puresnmp.exc import SnmpError, NoSuchOID, FaultySNMPImplementation  # noqa: E402
@@ -679,6 +681,485 @@ def suite_malformed(out, tier, seed):
 
 
 SUITES["malformed"] = suite_malformed
+
+
+
+# ============================================================================ faulty walks (C03)
+
+def suite_faulty(out, tier, seed):
+    rnd = random.Random(seed)
+    universe = [(1, 3, a, b) for a in (1, 2, 3) for b in (1, 2, 3, 4)]
+    n = 150 if tier == "quick" else 3000
+    for _ in range(n):
+        behaviour = {q: rnd.choice(universe + [None]) for q in universe + [(1, 3, 1), (1, 3, 2), (1, 3, 3)]}
+        kind = rnd.choice(["random", "echo", "smaller", "cycle"])
+        roots = rnd.sample([(1, 3, 1), (1, 3, 2), (1, 3, 3)], rnd.choice([1, 1, 2]))
+        bulk = rnd.choice([None, 1, 2, 3])
+        errors = rnd.choice(["strict", "warn"])
+        requested, revealed, reqs = [], set(), [0]
+
+        def misbehave(pdu, vbs, behaviour=behaviour, kind=kind):
+            reqs[0] += 1
+            if reqs[0] > 300:
+                raise RuntimeError("runaway: more than 300 requests")
+            qs = [tuple(o) for o, _ in pdu["varbinds"]]
+            requested.append(qs)
+            m = max(pdu["f2"], 1) if pdu["tag"] == ber.GETBULK else 1
+            outv = []
+            cur = list(qs)
+            for j in range(m):
+                for i, q in enumerate(cur):
+                    if kind == "echo":
+                        nx = q
+                    elif kind == "smaller":
+                        nx = (1, 3, 0, 1) if rnd.random() < 0.5 else q[:3] + (max(q[3] - 1, 0),) if len(q) > 3 else q
+                    elif kind == "cycle":
+                        nx = universe[(universe.index(q) + 1) % 3] if q in universe else universe[0]
+                    else:
+                        nx = behaviour.get(q, None)
+                    if nx is None:
+                        outv.append((q, agent.END))
+                    else:
+                        outv.append((nx, ("int", ber.INT, 1)))
+                        revealed.add(nx)
+                        cur[i] = nx
+            return outv
+        ag = agent.CommunityAgent([], misbehave=misbehave)
+        c = Client("127.0.0.1", V2C("public"), sender=ag)
+
+        async def go():
+            res = []
+            fetcher = c._bulkwalk_fetcher(bulk) if bulk else None
+            async for vb in c.multiwalk([OID(otext(r)) for r in roots], fetcher=fetcher, errors=errors):
+                res.append(vb)
+            return res
+        out.case((kind, tuple(roots), bulk, errors, tuple(sorted((k, v) for k, v in behaviour.items() if v))[:6]))
+        scen = {"kind": "faulty-walk", "agent": kind, "roots": roots, "bulk": bulk, "errors": errors,
+                "behaviour": [[list(k), list(v) if v else None] for k, v in behaviour.items()]}
+        try:
+            run(go())
+            exc = None
+        except Exception as e:  # noqa
+            exc = e
+        cont = [q for qs in requested[1:] for q in qs]
+        if isinstance(exc, RuntimeError) and "runaway" in str(exc):
+            out.fail(scen, "still requesting after 300 requests", "bounded number of requests")
+        elif len(cont) != len(set(cont)) or any(q in requested[0] for q in cont):
+            out.fail(scen, "asked again for an OID it had continued from: %r" % (requested,), "never re-requests")
+        elif reqs[0] > 1 + len(revealed):
+            out.fail(scen, "%d requests for %d revealed instances" % (reqs[0], len(revealed)), "requests <= 1 + revealed instances")
+        elif errors == "warn" and isinstance(exc, FaultySNMPImplementation):
+            out.fail(scen, "lenient mode raised FaultySNMPImplementation", "ends normally in lenient mode")
+
+
+# ============================================================================ interop (C10 C11 C12)
+
+def suite_interop(out, tier, seed, part=None):
+    sys.path.insert(0, os.path.join(HERE, "standins", "plugins"))
+    import puresnmp_plugins.priv.refstream as refstream
+    rnd = random.Random(seed)
+    combos = [("md5", None), ("sha1", None), ("md5", b"privpass1"), ("sha1", b"privpass22"), (None, None)]
+    sizes = list(range(60, 160, 7)) + [79, 80, 98, 99, 100] if tier == "quick" else list(range(1, 320))
+    for hashname, privpw in combos:
+        for plen in ([8, 299] if tier == "quick" else [1, 2, 3, 5, 7, 8, 9, 13, 64, 255, 256, 299, 300]):
+            if hashname is None and plen != 8:
+                continue
+            pw = bytes((i * 31 + 7) % 251 + 1 for i in range(plen))
+            eid = bytes(rnd.randrange(256) for _ in range(rnd.randint(5, 32)))
+            clock = {"t": 1000}
+            payload_size = rnd.choice(sizes)
+            db = [((1, 3, 6, 1, 2, 1, 1, 1, 0), ("bytes", ber.OCTETS, bytes(payload_size))), ((1, 3, 6, 1, 2, 1, 1, 2, 0), ("int", ber.INT, 5))]
+            ag = agent.V3Agent(db, auth=(hashname, pw) if hashname else None, priv=privpw, engine_id=eid, clock=lambda: clock["t"])
+            creds = V3("user", Auth(pw, hashname) if hashname else None, Priv(privpw, "refstream") if privpw else None)
+            c = Client("127.0.0.1", creds, sender=ag)
+            out.case((hashname, bool(privpw), plen, payload_size))
+            scen = {"kind": "interop", "hash": hashname, "priv": bool(privpw), "password_len": plen, "engine_id": eid.hex(),
+                    "payload_size": payload_size}
+            ops = [("get", lambda: c.get(OID("1.3.6.1.2.1.1.1.0"))), ("getnext", lambda: c.getnext(OID("1.3.6.1.2.1.1.1.0"))),
+                   ("set", lambda: c.set(OID("1.3.6.1.2.1.1.2.0"), Integer(9))), ("bulkget", lambda: c.bulkget([], [OID("1.3.6.1.2.1.1")], 2))]
+            for name, mk in ops:
+                before = dict(ag.stats)
+                n_before = len(ag.parsed)
+                try:
+                    run(mk())
+                    exc = None
+                except Exception as e:  # noqa
+                    exc = e
+                reqs = [p for p in ag.parsed[n_before:] if p["user"] != b""]
+                bad_stats = {k: v - before[k] for k, v in ag.stats.items() if v != before[k] and k != "unknownEngineIDs"}
+                want_flags = 4 | (2 if privpw else 0) | (1 if hashname else 0)
+                if part in (None, "C10"):
+                    if bad_stats:
+                        out.fail(dict(scen, op=name), "agent refused the request: %r" % bad_stats, "accepted by an independent RFC 3414 engine")
+                    elif any(p["flags"] != want_flags for p in reqs):
+                        out.fail(dict(scen, op=name), "msgFlags %r" % [p["flags"] for p in reqs], "msgFlags %d" % want_flags)
+                    elif exc is not None:
+                        # authentic minimal-BER response rejected: the known pattern is a re-encoded length of exactly 127
+                        fid = "D9" if type(exc).__name__ == "AuthenticationError" else None
+                        out.fail(dict(scen, op=name), "response rejected: %s: %s" % (type(exc).__name__, exc),
+                                 "authentic response accepted", finding=fid)
+                if part in (None, "C11") and privpw and reqs:
+                    clear = ber.encode(("bytes", ber.OCTETS, bytes(payload_size))) if False else None
+                    raw = ag.datagrams[-1]
+                    if b"\x2b\x06\x01\x02\x01\x01" in raw:
+                        out.fail(dict(scen, op=name), "an OID of the scoped PDU is visible in the datagram", "only ciphertext travels")
+            if part in (None, "C12") and hashname:
+                # agent time advances: a request that succeeded right after discovery must succeed any time later
+                for adv in (10, 149, 151, 100000):
+                    clock["t"] = 1000 + adv
+                    out.case((hashname, "advance", adv))
+                    try:
+                        run(c.get(OID("1.3.6.1.2.1.1.2.0")))
+                    except Exception as e:  # noqa
+                        out.fail(dict(scen, advance=adv), "%s: %s" % (type(e).__name__, e), "request accepted (engine time within the window)",
+                                 finding="D10" if adv > 150 else None)
+                        break
+
+
+SUITES.update({"faulty": suite_faulty, "interop": suite_interop, "interop-C10": lambda o, t, s: suite_interop(o, t, s, "C10"),
+               "interop-C11": lambda o, t, s: suite_interop(o, t, s, "C11"), "interop-C12": lambda o, t, s: suite_interop(o, t, s, "C12")})
+
+
+
+# ============================================================================ udp (C13): real loopback sockets
+
+def suite_udp(out, tier, seed):
+    import socket
+    from puresnmp.transport import send_udp, Endpoint
+    from puresnmp.exc import Timeout
+    from ipaddress import ip_address
+    rnd = random.Random(seed)
+
+    def nfd():
+        return len(os.listdir("/proc/self/fd"))
+    outcomes = ["reply", "drop", "late", "double"]
+    plans = [p for r in (1, 2, 3) for p in itertools.product(outcomes, repeat=r)]
+    if tier == "quick":
+        rnd.shuffle(plans)
+        plans = plans[:10]
+    T = 0.12
+
+    async def one(plan, retries, closed_port=False):
+        loop = asyncio.get_running_loop()
+        got = []
+
+        class Server(asyncio.DatagramProtocol):
+            def connection_made(self, tr):
+                self.tr = tr
+
+            def datagram_received(self, data, addr):
+                got.append(data)
+                k = len(got) - 1
+                what = plan[k] if k < len(plan) else "drop"
+                if what == "reply":
+                    self.tr.sendto(b"reply-%d" % k, addr)
+                elif what == "double":
+                    self.tr.sendto(b"reply-%d" % k, addr)
+                    self.tr.sendto(b"second-%d" % k, addr)
+                elif what == "late":
+                    loop.call_later(T * 1.6, lambda: self.tr.sendto(b"late-%d" % k, addr) if not self.tr.is_closing() else None)
+        if closed_port:
+            s = socket.socket(socket.AF_INET, socket.SOCK_DGRAM)
+            s.bind(("127.0.0.1", 0))
+            port = s.getsockname()[1]
+            s.close()
+            srv = None
+        else:
+            srv, _ = await loop.create_datagram_endpoint(Server, local_addr=("127.0.0.1", 0))
+            port = srv.get_extra_info("sockname")[1]
+        base = nfd()
+        t0 = loop.time()
+        try:
+            res = await send_udp(Endpoint(ip_address("127.0.0.1"), port), b"request-bytes", timeout=T, retries=retries)
+            exc = None
+        except Exception as e:  # noqa
+            res, exc = None, e
+        elapsed = loop.time() - t0
+        await asyncio.sleep(T * 2)
+        leaked = nfd() - base
+        if srv:
+            srv.close()
+        return res, exc, elapsed, got, leaked
+    for plan in plans:
+        retries = len(plan)
+        out.case(("udp", plan, retries))
+        res, exc, elapsed, got, leaked = run(one(plan, retries))
+        scen = {"kind": "udp", "plan": list(plan), "retries": retries, "timeout": T}
+        first = next((i for i, w in enumerate(plan) if w in ("reply", "double")), None)
+        if leaked > 0:
+            out.fail(scen, "%d descriptor(s) still open" % leaked, "no socket left open")
+        if any(d != b"request-bytes" for d in got) or len(got) > retries:
+            out.fail(scen, "datagrams sent: %r" % got, "at most `retries` identical requests")
+        if first is not None:
+            if exc is not None or res != b"reply-%d" % first:
+                out.fail(scen, repr(res or exc), "the first reply's bytes (attempt %d)" % first)
+        else:
+            if not isinstance(exc, Timeout) or len(got) != retries or not (retries * T * 0.9 <= elapsed <= retries * T * 1.8 + 0.3):
+                out.fail(scen, "%r after %.2fs and %d datagrams" % (exc, elapsed, len(got)), "Timeout after exactly %d attempts of %.2fs" % (retries, T))
+    out.case(("udp", "icmp"))
+    res, exc, elapsed, got, leaked = run(one((), 2, closed_port=True))
+    if leaked > 0:
+        out.fail({"kind": "udp", "plan": ["icmp"], "retries": 2}, "%d descriptor(s) still open after %r" % (leaked, exc), "no socket left open")
+
+
+# ============================================================================ concurrent (C14)
+
+def suite_concurrent(out, tier, seed):
+    rnd = random.Random(seed)
+    db = [((1, 3, 1, a, b), ("int", ber.INT, 10 * a + b)) for a in (1, 2, 3) for b in (1, 2, 3)]
+    for cfg in ("v2c", "v3"):
+        for trial in range(3 if tier == "quick" else 60):
+            base = agent.CommunityAgent(db) if cfg == "v2c" else agent.V3Agent(db, auth=("md5", b"authpass1"), priv=None)
+            creds = V2C("public") if cfg == "v2c" else V3("user", Auth(b"authpass1", "md5"))
+            pending = []
+
+            async def sender(endpoint, data, timeout=1, loop=None, retries=10):
+                fut = asyncio.get_running_loop().create_future()
+                pending.append((fut, data))
+                return await fut
+
+            async def scheduler(order_rnd):
+                idle = 0
+                while idle < 50:
+                    await asyncio.sleep(0)
+                    if not pending:
+                        idle += 1
+                        continue
+                    idle = 0
+                    fut, data = pending.pop(order_rnd.randrange(len(pending)))
+                    fut.set_result(await base(None, data))
+            c = Client("127.0.0.1", creds, sender=sender)
+            ops = [("get", (1, 3, 1, 1, 1)), ("get", (1, 3, 1, 2, 2)), ("walk", (1, 3, 1, 1)), ("walk", (1, 3, 1)), ("bulk", (1, 3, 1, 2)),
+                   ("set", (1, 3, 1, 3, 3))]
+            chosen = [rnd.choice(ops) for _ in range(rnd.randint(2, 5))]
+
+            async def do(op, o):
+                if op == "get":
+                    return (await c.get(OID(otext(o)))).value
+                if op == "set":
+                    return (await c.set(OID(otext(o)), Integer(33))).value
+                if op == "walk":
+                    return [tuple(v.oid.nodes) async for v in c.walk(OID(otext(o)))]
+                return [tuple(v.oid.nodes) async for v in c.bulkwalk([OID(otext(o))], 2)]
+
+            def alone(op, o):
+                if op in ("get",):
+                    return dict(db)[o][2]
+                if op == "set":
+                    return 33
+                return sorted(x for x, _ in db if x[:len(o)] == o and x != o)
+
+            async def main_():
+                sch = asyncio.ensure_future(scheduler(random.Random(rnd.random())))
+                res = await asyncio.gather(*[do(op, o) for op, o in chosen], return_exceptions=True)
+                sch.cancel()
+                return res
+            out.case((cfg, tuple(chosen), trial))
+            res = run(main_())
+            for (op, o), r in zip(chosen, res):
+                want = alone(op, o)
+                if isinstance(r, Exception) or (sorted(r) if isinstance(r, list) else r) != want:
+                    out.fail({"kind": "concurrent", "config": cfg, "ops": [[a, list(b)] for a, b in chosen]}, repr(r), want)
+                    break
+
+
+# ============================================================================ tables (C16)
+
+def suite_tables(out, tier, seed):
+    rnd = random.Random(seed)
+    for _ in range(60 if tier == "quick" else 1500):
+        ncol, nrow, kidx = rnd.randint(1, 3), rnd.randint(0, 4), rnd.randint(1, 2)
+        table = (1, 3, 6, 5, rnd.randint(1, 3))
+        entry = table + (1,)
+        idxs = sorted({tuple(rnd.randint(1, 3) for _ in range(kidx)) for _ in range(nrow)})
+        cells = {}
+        for col in range(1, ncol + 1):
+            for ix in idxs:
+                if rnd.random() < 0.8:
+                    cells[entry + (col,) + ix] = ("int", ber.INT, 100 * col + sum(ix))
+        neighbours = {(1, 3, 6, 5, 0, 1): ("int", ber.INT, 1), table[:-1] + (table[-1] + 1, 1, 1, 1): ("int", ber.INT, 2),
+                      table[:-1] + (table[-1] * 10 + 1, 1, 1): ("int", ber.INT, 3)}
+        db = list(cells.items()) + list(neighbours.items())
+        want = {}
+        for o, v in cells.items():
+            ix = ".".join(map(str, o[len(entry) + 1:]))
+            want.setdefault(ix, {"0": ix})[str(o[len(entry)])] = v[2]
+        for bulk in (None, 1, 3, 10):
+            ag = agent.CommunityAgent(db)
+            c = Client("127.0.0.1", V2C("public"), sender=ag)
+            out.case((tuple(sorted(cells)), bulk))
+            try:
+                rows = run(c.bulktable(OID(otext(table)), bulk_size=bulk)) if bulk else run(c.table(OID(otext(entry))))
+                got = {r["0"]: {k: (v if k == "0" else v.value) for k, v in r.items()} for r in rows}
+                ok = got == want and len(rows) == len(want)
+            except Exception as e:  # noqa
+                got, ok = repr(e), False
+            if not ok:
+                out.fail({"kind": "table", "cells": [list(o) for o in sorted(cells)], "bulk": bulk, "table": list(table)}, got, want)
+
+
+# ============================================================================ config (C18)
+
+def suite_config(out, tier, seed):
+    rnd = random.Random(seed)
+    db = [((1, 3, 1, 1, 0), ("int", ber.INT, 1))]
+
+    class Multi:
+        """speaks v1 and v2c with any community; records what reached the transport"""
+
+        def __init__(self):
+            self.seen = []
+
+        async def __call__(self, endpoint, data, timeout=1, loop=None, retries=10):
+            msg = ber.parse_community_message(data)
+            self.seen.append({"timeout": timeout, "retries": retries, "version": msg["version"], "community": msg["community"]})
+            ag = agent.CommunityAgent(db, version=msg["version"], community=msg["community"])
+            return ag.respond(data)
+    for _ in range(40 if tier == "quick" else 1000):
+        tr = Multi()
+        c = Client("127.0.0.1", V2C("public"), sender=tr)
+        model = [{"timeout": 6, "retries": 10, "version": 1, "community": b"public"}]
+
+        def request():
+            run(c.get(OID("1.3.1.1.0")))
+            return tr.seen[-1]
+        scen_ops = []
+
+        def rand_kw():
+            kw = {}
+            for k in rnd.sample(["timeout", "retries", "credentials"], rnd.randint(1, 2)):
+                kw[k] = rnd.randint(1, 9) if k != "credentials" else rnd.choice([V1("v1comm"), V2C("other"), V2C("third")])
+            return kw
+
+        def apply(state, kw):
+            s = dict(state)
+            for k, v in kw.items():
+                if k == "credentials":
+                    s["version"], s["community"] = (0 if type(v) is V1 else 1), v.community.encode()
+                else:
+                    s[k] = v
+            return s
+        ok = True
+
+        def block(depth):
+            nonlocal ok
+            for _ in range(rnd.randint(1, 3)):
+                act = rnd.choice(["request", "configure", "nest", "bad", "raise"])
+                scen_ops.append((depth, act))
+                if act == "request":
+                    if request() != model[-1]:
+                        ok = False
+                elif act == "configure":
+                    kw = rand_kw()
+                    c.configure(**kw)
+                    model[-1] = apply(model[-1], kw)
+                elif act == "bad":
+                    try:
+                        c.configure(no_such_setting=1)
+                        ok = False
+                    except TypeError:
+                        pass
+                elif act == "nest" and depth < 4:
+                    kw = rand_kw()
+                    model.append(apply(model[-1], kw))
+                    try:
+                        with c.reconfigure(**kw):
+                            block(depth + 1)
+                    except KeyError:
+                        pass
+                    model.pop()
+                elif act == "raise" and depth > 0:
+                    raise KeyError("leave the block by an exception")
+        out.case(("config", _))
+        try:
+            block(0)
+        except KeyError:
+            pass
+        if request() != model[0]:
+            ok = False
+        if not ok:
+            out.fail({"kind": "config", "ops": scen_ops}, tr.seen[-3:], model)
+
+
+# ============================================================================ trap (C19)
+
+def suite_trap(out, tier, seed):
+    import puresnmp.api.raw as raw
+    from puresnmp.transport import SNMPTrapReceiverProtocol
+    from puresnmp.api.pythonic import TrapInfo
+    rnd = random.Random(seed)
+    got = []
+
+    async def cb(trap):
+        got.append(trap)
+    cap = {}
+
+    async def fake_listen(addr, port, decode, loop):
+        cap["proto"] = SNMPTrapReceiverProtocol(decode)
+    saved = raw.listen
+    raw.listen = fake_listen
+    loop = asyncio.new_event_loop()
+    try:
+        raw.register_trap_callback(cb, credentials=V2C("trapcomm"), loop=loop)
+    finally:
+        raw.listen = saved
+    proto = cap["proto"]
+
+    class T:
+        closed = False
+
+        def close(self):
+            self.closed = True
+    proto.connection_made(T())
+
+    def trap_bytes(comm, n):
+        vbs = [((1, 3, 6, 1, 2, 1, 1, 3, 0), ("int", ber.TIMETICKS, 4200)), ((1, 3, 6, 1, 6, 3, 1, 1, 4, 1, 0), ("oid", (1, 3, 6, 1, 4, 1, 9, 9)))]
+        vbs += [((1, 3, 6, 1, 4, 1, 9, i), ("int", ber.INT, i)) for i in range(n)]
+        return ber.build_community_message(1, comm, ber.build_pdu(ber.TRAP2, 77, 0, 0, vbs)), vbs
+    seq = []
+    for _ in range(30 if tier == "quick" else 600):
+        kind = rnd.choice(["valid", "valid", "foreign", "truncated", "garbage"])
+        data, vbs = trap_bytes(b"trapcomm" if kind != "foreign" else b"other", rnd.randint(0, 3))
+        if kind == "truncated":
+            data = data[:rnd.randint(1, len(data) - 1)]
+        if kind == "garbage":
+            data = bytes(rnd.randrange(256) for _ in range(rnd.randint(0, 40)))
+        seq.append(kind)
+        before = len(got)
+        addr = ("192.0.2.%d" % rnd.randint(1, 200), rnd.randint(1024, 65000))
+        out.case(("trap", kind, len(seq)))
+
+        async def inject():
+            try:
+                proto.datagram_received(data, addr)
+            except Exception:
+                pass        # the event loop logs exceptions of protocol callbacks
+            await asyncio.sleep(0)
+        signal.alarm(2)
+        try:
+            loop.run_until_complete(inject())
+        except TimeoutError:
+            signal.alarm(0)
+            continue        # x690 hang on a garbage datagram: finding D15 (C20)
+        finally:
+            signal.alarm(0)
+        new = got[before:]
+        scen = {"kind": "trap", "sequence": list(seq), "datagram": data.hex()}
+        if kind == "valid":
+            if len(new) != 1 or new[0].source is None or new[0].source.address != addr[0] or \
+               [(tuple(v.oid.nodes), describe(v.value)) for v in new[0].value.varbinds] != [(o, describe_node(v)) for o, v in vbs] or \
+               TrapInfo(new[0]).origin != addr[0]:
+                out.fail(scen, repr(new), "delivered exactly once with origin %s and the bindings sent" % addr[0])
+                break
+        elif kind == "foreign" and new:
+            out.fail(scen, repr(new), "a foreign community is never delivered")
+            break
+        if proto.transport.closed:
+            out.fail(scen, "the listener closed its transport", "later notifications are still delivered")
+            break
+
+
+SUITES.update({"udp": suite_udp, "concurrent": suite_concurrent, "tables": suite_tables, "config": suite_config, "trap": suite_trap})
 
 
 if __name__ == "__main__":
